@@ -40,8 +40,13 @@ RULES = {
     "finds the initializer by `<value>.name`; where the writer's key comes from a tensor bound to `<value>.const_value`, the "
     "tensor's name is first aligned with the value's name in the same loop (or the key is the value's name itself) - otherwise an "
     "initializer whose tensor is named differently is written under a key nothing reads back",
+    "R10": "no way around the externalisation step: in save(), every path from the entry of the `external_data is not None` "
+    "branch to a normal exit passes the call of unload_from_model - the one step that decides, for every initializer and "
+    "whatever its current storage, whether it is written to the data file or made inline; a fast path that serializes the "
+    "model as it is (`nothing is large enough`) leaves already-external small initializers external, pointing into the old "
+    "location",
 }
-FLOORS = {"R1": 4, "R2": 4, "R3": 20, "R4": 1, "R5": 3, "R6": 25, "R7": 1, "R8": 2, "R9": 1}
+FLOORS = {"R1": 4, "R2": 4, "R3": 20, "R4": 1, "R5": 3, "R6": 25, "R7": 1, "R8": 2, "R9": 1, "R10": 1}
 EXPLANATION = (
     "Class-qualified effect summaries of the try bodies and finally blocks of the two save entry points; data-flow "
     "checks on the initializer collection loops and on the offset accumulators; table agreement between the "
@@ -464,7 +469,35 @@ def rule_r8(ctx):
     ctx.require(n >= 2, f"only {n} loops gathering future results found")
 
 
+def rule_r10(ctx):
+    f = ctx.repo.func("onnx_ir._io:save")
+    ctx.require("external_data" in f.params, "save(): external_data parameter not found")
+    cfg = CFG(f.node)
+    branch = [n for n in own_nodes(f.node) if isinstance(n, ast.If) and isinstance(n.test, ast.Compare) and norm(n.test) == "external_data is not None"
+              and any(dotted_of(c.func) is not None and (dotted_of(c.func) or "").endswith("unload_from_model") for st in n.body for c in ast.walk(st) if isinstance(c, ast.Call))]
+    ctx.require(len(branch) == 1, "save(): the external-data branch that calls unload_from_model was not found")
+    calls = [c for st in branch[0].body for c in ast.walk(st) if isinstance(c, ast.Call) and (dotted_of(c.func) or "").endswith("unload_from_model")]
+    via = {n.id for c in calls for n in cfg.nodes_containing(c)}
+    start = cfg.node_of(branch[0].body[0])[0]
+    ok = bool(via) and (start.id in via or cfg.all_paths_through(start, via, {cfg.exit.id}, exc=False))
+    # which statement leaves early
+    bad = None
+    if not ok:
+        for r in (x for st in branch[0].body for x in ast.walk(st) if isinstance(x, ast.Return)):
+            rn = cfg.node_of(r)
+            if rn and not cfg.all_paths_through(start, via, {rn[0].id}, exc=False):
+                bad = r
+                break
+    ctx.check("R10", "save(): every normal exit of the external-data branch passes unload_from_model", ok, f, bad if bad is not None else branch[0],
+              "save(external_data=…) can finish without calling unload_from_model: initializers that are already external and at or below "
+              "the size threshold are then not loaded and stored inline but written with their old external reference, so after loading "
+              "the saved model they are external (or unreadable, if the old data file is not next to the new model)",
+              how="must-pass-through query on the CFG of save(): entry of the branch → normal exit, via the unload_from_model call",
+              construct="exit of the external-data branch without unload_from_model")
+
+
 def run(ctx):
+    rule_r10(ctx)
     rule_r9(ctx)
     rule_r8(ctx)
     ef = ctx._shared.get("effects")
